@@ -389,7 +389,9 @@ class ConditionLike:
             if spec_key_split_len == 3:
                 try:
                     pre_proc_str = spec_key_split[1]
-                    pre_proc_str = PRE_PROC_LOOKUP.get(pre_proc_str, pre_proc_str)
+                    if pre_proc_str not in PRE_PROC_LOOKUP:
+                        raise AttributeError(pre_proc_str)  # not a pre-processor; see below
+                    pre_proc_str = PRE_PROC_LOOKUP[pre_proc_str]
                     if pre_proc_str == "dtype" and spec_val is not None:
                         try:
                             # convert strings to types
@@ -421,10 +423,18 @@ class ConditionLike:
 
             cond_call_str = spec_key_split[-1]
             cond_call_str = CALLABLE_LOOKUP.get(cond_call_str, cond_call_str)
-            # callable names may contain upper-case letters (e.g. `keys_contain_N_of`):
-            cond_call_str = {i.lower(): i for i in dir(cls)}.get(
-                cond_call_str, cond_call_str
-            )
+            # only the callables the DSL defines for this condition type may be named (not
+            # arbitrary attributes); their names may contain upper-case letters (e.g.
+            # `keys_contain_N_of`):
+            dsl_callables = {
+                name.lower(): name
+                for base in (GeneralCallables, MapCallables)
+                if issubclass(cls, base)
+                for name, obj in vars(base).items()
+                if isinstance(obj, classmethod)
+            }
+            is_dsl_callable = cond_call_str in dsl_callables
+            cond_call_str = dsl_callables.get(cond_call_str, cond_call_str)
             # special case:
             if cond_call_str in ["is_instance", "keys_is_instance"]:
                 try:
@@ -444,9 +454,9 @@ class ConditionLike:
                         f"types are: {list(DTYPE_LOOKUP.keys())!r}."
                     )
 
-            try:
+            if is_dsl_callable:
                 cond_method = getattr(cls, cond_call_str)
-            except AttributeError:
+            else:
                 msg = (
                     f'Condition callable "{cond_call_str}" is not known or not '
                     f'compatible with specified condition type "{condition_type_str}"'
